@@ -5,6 +5,11 @@
 //                     call the three trees are dumped through rime::Config::GetItem("").
 //   T <tree>          rime::ConfigData::SaveToStream of the tree, LoadFromStream of the bytes
 //   Y <hexdoc>        LoadFromStream of a document
+//   F <op>;<op>;...   file-based save/load history of ONE rime::Config in the directory $VERIF_C18_DIR (round 3):
+//                       ld:<hexdoc> LoadFromStream   ss:<hexpath>:<hexval> SetString   ed:<hexpath>:<hexkey>:<hexval> in-place
+//                       edit of the container a getter hands out (GetMap(path)->Set / GetList(path)->Append)
+//                       sf:<name> SaveToFile   lf:<name> LoadFromFile   sv Save()   rf:<name> load <name> into a FRESH
+//                       ConfigData and print its tree.  After every op: <result>|<tree of the config>.
 // One output line per case, same canonical format as the model driver.
 #include "../common/rime_env.h"
 #include <rime/config.h>
@@ -112,6 +117,58 @@ static std::string load_doc(const std::string& doc) {
   std::string o;
   show(d.root, o);
   return o;
+}
+
+static std::string run_file_history(const std::string& body) {
+  const char* d = getenv("VERIF_C18_DIR");
+  std::string dir = d ? d : ".";
+  Config cfg;
+  std::string out;
+  bool first = true;
+  for (const std::string& op : split(body, ';')) {
+    if (op.empty()) continue;
+    auto f = split(op, ':');
+    const std::string& k = f[0];
+    std::string r;
+    auto B = [](bool b) { return std::string(b ? "B1" : "B0"); };
+    if (k == "ld") {
+      std::istringstream is(unhex(f[1]));
+      r = B(cfg.LoadFromStream(is));
+    } else if (k == "ss") {
+      r = B(cfg.SetString(unhex(f[1]), unhex(f[2])));
+    } else if (k == "ed") {
+      std::string path = unhex(f[1]);
+      if (auto m = cfg.GetMap(path)) {
+        r = B(m->Set(unhex(f[2]), New<ConfigValue>(unhex(f[3]))));
+      } else if (auto l = cfg.GetList(path)) {
+        r = B(l->Append(New<ConfigValue>(unhex(f[3]))));
+      } else {
+        r = "B0";
+      }
+    } else if (k == "sf") {
+      r = B(cfg.SaveToFile(path(dir) / f[1]));
+    } else if (k == "lf") {
+      r = B(cfg.LoadFromFile(path(dir) / f[1]));
+    } else if (k == "sv") {
+      r = B(cfg.Save());
+    } else if (k == "rf") {
+      ConfigData fresh;
+      if (fresh.LoadFromFile(path(dir) / f[1], nullptr)) {
+        r = "R";
+        show(fresh.root, r);
+      } else {
+        r = "R!";
+      }
+    } else {
+      r = "??";
+    }
+    if (!first) out += ' ';
+    first = false;
+    out += r;
+    out += '|';
+    show(cfg.GetItem(""), out);
+  }
+  return out;
 }
 
 static std::string run_history(RimeApi* api, const std::string& body) {
@@ -223,6 +280,8 @@ int main() {
     std::string body = line.substr(2);
     if (line[0] == 'H') {
       std::cout << run_history(api, body) << "\n";
+    } else if (line[0] == 'F') {
+      std::cout << run_file_history(body) << "\n";
     } else if (line[0] == 'T') {
       P = body.c_str();
       ConfigData d;
